@@ -22,7 +22,7 @@ RULE = ('1-5 metric definitions per tracepoint x 4 types x labels (none, static 
         'least one call expected or a no-processor phase exercised; distinct by canonical case')
 ASSUMPTIONS = ['numeric-looking strings are not used as "non-numeric" values', 'absent help/unit may arrive as None or ""',
                'label values are compared as text']
-REQUIRE = {'calls_compared': 2500, 'hits_checked': 1500, 'no_processor_phases': 60, 'wire_definitions': 300,
+REQUIRE = {'runs_with_a_processor_that_adds_a_label': 40, 'calls_compared': 2500, 'hits_checked': 1500, 'no_processor_phases': 60, 'wire_definitions': 300,
            'failing_value_exprs': 100, 'label_exprs': 300, 'same_name_definitions': 100,
            'label_sets_kept': 2000}
 T0 = 1_700_000_000_000_000_000
@@ -152,7 +152,13 @@ def case_metric(seed, out, spec, wd):
                                    for k, how, v in d['labels']], d['expr'], d['namespace'], d['help'], d['unit'])
                  for d in defs]
         trigs = [line_trigger('tp17', base, line, args, [], mdefs)]
-    procs = [plugins.make('Proc%d' % i, ['met'], order=i, falsy=r.pick([None, None, None, 'len', 'bool']))()
+    # (one of several processors may add a label of its own to the label set it is handed: that is its copy, the
+    # others get the labels the tracepoint defines)
+    adder = r.randrange(nproc) if nproc >= 2 and r.chance(0.4) else None
+    if adder is not None:
+        out.count('runs_with_a_processor_that_adds_a_label')
+    procs = [plugins.make('Proc%d' % i, ['met_adds_label' if i == adder else 'met'], order=i,
+                          falsy=r.pick([None, None, None, 'len', 'bool']))()
              for i in range(nproc)]
     rig = Rig(custom={}, host_dir=wd, plugins=[])
     rig.install(trigs)
